@@ -200,7 +200,7 @@ func (d *pdrv) Apply(s core.Step) (any, any, error) {
 		d.crash = d.c.errs.String()
 		ret := map[string]any{"alive": false}
 		if s.Op() == "Probe" {
-			ret["recv"], ret["loop"] = "dead", "dead"
+			ret["recv"], ret["loop"], ret["val"] = "dead", "dead", "dead"
 		}
 		return ret, nil, nil
 	}
